@@ -4,7 +4,7 @@
    are everything that is assumed about them. *)
 From Coq Require Import ZArith List Bool String Ascii Lia.
 From PV Require Import Base.NpSearch Base.NpSort C18.Model C18.Spec C18.Ref C18.Proofs C18.ProofsJson C18.ProofsNum
-                       C18.ProofsTsv C18.ProofsPy C18.ProofsRef.
+                       C18.ProofsTsv C18.ProofsPy C18.ProofsRef C18.ProofsSpec.
 Import ListNotations.
 Open Scope Z_scope.
 
@@ -71,6 +71,13 @@ Print Assumptions C18_json_file.
 Theorem C18_json_sorted : forall (C : codec) d, wf_top_b d = true -> jsorted (save_json C d) = true.
 Proof. exact save_sorted. Qed.
 Print Assumptions C18_json_sorted.
+
+(* the boolean clauses 21 + 22 the correspondence evaluates on phylib's observed output say exactly
+   that the loaded dictionary is the saved one with normalised values *)
+Theorem C18_json_checker_sound : forall d out,
+  json_keys_b d out = true -> json_vals_b d out = true -> out = normalise_top d.
+Proof. exact json_checker_sound. Qed.
+Print Assumptions C18_json_checker_sound.
 
 (* ------------------------------------------------------------------------------------------------ *)
 (* tables                                                                                           *)
@@ -161,6 +168,11 @@ Print Assumptions C18_python_one_line.
 Theorem C18_python : forall d, py_ok d = true -> read_python (write_python d) = Some d.
 Proof. exact read_write_python. Qed.
 Print Assumptions C18_python.
+
+(* clause 27 on an observed output says the dictionary read back is the written one *)
+Theorem C18_python_checker_sound : forall d out, py_spec_b d out = true -> out = d.
+Proof. exact py_checker_sound. Qed.
+Print Assumptions C18_python_checker_sound.
 
 (* ------------------------------------------------------------------------------------------------ *)
 (* non-vacuity: the oracle hypotheses are satisfiable; concrete non-trivial instances               *)
